@@ -124,11 +124,13 @@ CHECKS = {
          "written only by the holder of the message lock and is the next fragment of its run (contiguous, in order, never interleaved), "
          "FIFO hand-over only on release; every stamped fragment is the spec encoding of a well-formed frame carrying its piece (C09/C05); "
          "a protocol-following NCP (spec parse + reassembly) recovers exactly header+parameters from a contiguous run (C10). Tie: real "
-         "ZBOSS+uart pair under a virtual-time loop, scenario campaign + reference-NCP monitor on the bytes written.",
-         TB + "PARTIAL: quiescent-point injection only; asyncio semantics modelled; the end-to-end composition (request -> wire -> NCP) is "
-         "proved per stage and checked end-to-end by the monitor, not as one Coq theorem; write guards in the model make the lock "
-         "discipline explicit (validated by Tie B).",
-         "Coq proof (trace invariant) + differential correspondence + reference-NCP monitor", "7 C11"),
+         "ZBOSS+uart pair under a virtual-time loop, scenario campaign + reference-NCP monitor on the bytes written. "
+         "END TO END (Link/EndToEnd.v, Api/ApiWire.v): for every event history during which the transport stays open, the bytes the "
+         "machine writes form a schedule of contiguous fragment runs with interspersed ACK frames, and the NCP (parse by the format, drop "
+         "ACKs, concatenate first..last) receives exactly header+parameters of every request whose last fragment was written, in order.",
+         TB + "PARTIAL w.r.t. the runtime only: quiescent-point injection; asyncio semantics modelled; write guards in the model make the "
+         "lock discipline explicit (proved never to fail: guard_never_fails; validated by Tie B).",
+         "Coq proof (trace invariant + end-to-end composition theorem) + differential correspondence + reference-NCP monitor", "7 C11"),
  "C13": ("Theorems for every event history: a request that is over never has a pending future (no waiter left) - whatever ended it "
          "(response, timeout, cancellation in any phase, close, loss, refusal); a late response changes no request; a response goes to the "
          "oldest LIVE waiter; outcomes are response/timeout/cancelled/runtime-error (never 'nothing'). Tie: scenario campaign + every "
@@ -140,17 +142,22 @@ CHECKS = {
          "lock; the lock is acquired directly only when free with no waiters, waited for only when taken, handed over FIFO only when its "
          "holder (whose request ended) releases it; the trace's abstract lock state equals the state's. Tie: scenario campaign (blocking/"
          "non-blocking mixes, timing, timeouts, cancellations) + directed check that non-blocking requests do not wait for a blocking "
-         "request's response.",
-         TB + "PARTIAL: quiescent-point injection only; asyncio semantics modelled; 'non-blocking never waits' is checked by the monitor.",
-         "Coq proof (trace invariant) + differential correspondence", "7 C14"),
+         "request's response. "
+         "Also proved (Api/ApiLive.v): a non-blocking request issued while the link is up and no message is being sent writes its first "
+         "fragment in that very step whatever the state of the blocking lock; in every reachable state the lock queues/holders are "
+         "consistent with the requests' phases.",
+         TB + "PARTIAL w.r.t. the runtime only: quiescent-point injection; asyncio semantics modelled.",
+         "Coq proof (trace invariant + state invariant) + differential correspondence", "7 C14"),
  "C20": ("Theorems: after close() / loss the link is absent and stays absent; a request issued then is refused in the same step; the "
          "application is told about a loss exactly when a loss happens while attached and no reset is in progress (count increases by "
-         "exactly one then, by zero for every other event); close detaches the app; no waiter survives. Termination of all requests "
-         "within the ACK wait after close is decided on the model by computation for instances and checked by the monitor at every "
-         "quiescent point of the scenarios (close/loss x reset x repeated close).",
-         TB + "PARTIAL: the general termination statement (all_done after Close; Tick ACK_TIMEOUT for ALL histories) is not proved (fuel "
-         "adequacy of the scheduler); the reconnect path of reset() is not modelled; quiescent-point injection only.",
-         "Coq proof (safety parts) + differential correspondence + termination monitor", "7 C20"),
+         "exactly one then, by zero for every other event); close detaches the app; no waiter survives. TERMINATION (Api/ApiLive.v): "
+         "for every well-formed history, after close (no reset in progress) every request in whatever phase has ended once the ACK wait "
+         "has passed, whatever events follow; after a loss every request has ended once the ACK wait plus the longest response timeout "
+         "has passed; the scheduler never runs out of fuel. Tie: scenario campaign + close/loss at every quiescent point + the real "
+         "reset() procedure x loss at every point.",
+         TB + "PARTIAL w.r.t. the runtime only: the reconnect path of reset() is exercised on the implementation by the monitor but not "
+         "modelled in Coq (the model has reset begin/end); quiescent-point injection; asyncio semantics modelled.",
+         "Coq proof (safety + termination by invariant and potential function) + differential correspondence + monitors", "7 C20"),
 }
 
 checks = []
